@@ -209,6 +209,39 @@ class G:
         hit("q"); return self.d + 100
 ''', sources={"a": "int", "b": "int"}, armable=True,
         derived={"d": (["a"], None, "attr"), "p": (["a"], lambda s: s["a"] * 2, "cached"), "q": (["d"], lambda s: s["d"] + 100, "cached")}),
+    "parent_written_first": dict(src='''
+@spec_class
+class Base:
+    a: int = 1
+    b: int = 10
+    @spec_property(cache=True, invalidated_by=["b"])
+    def pb(self):
+        hit("pb"); return self.b + 1
+
+@spec_class
+class G(Base):
+    @spec_property(cache=True, invalidated_by=["a"])
+    def p(self):
+        hit("p"); return self.a * 2
+    d: int = Attr(default=0, invalidated_by=["a"])
+
+# the PARENT class (in which nothing depends on `a`) is used first
+_b = Base(); _b.a = 5; _b = _b.with_a(6); _b.b = 3
+''', sources={"a": "int", "b": "int"},
+        derived={"pb": (["b"], lambda s: s["b"] + 1, "cached"), "p": (["a"], lambda s: s["a"] * 2, "cached"), "d": (["a"], None, "attr")}),
+    "alias_source": dict(src='''
+from spec_classes import Alias
+@spec_class
+class G:
+    a: int = 1
+    b: int = 10
+    al: int = Alias("a", passthrough=True)
+    @spec_property(cache=True, invalidated_by=["a"])
+    def p(self):
+        hit("p"); return self.a * 2
+    d: int = Attr(default=0, invalidated_by=["a"])
+''', sources={"a": "int", "b": "int", "al": "alias"}, alias={"al": "a"},
+        derived={"p": (["a"], lambda s: s["a"] * 2, "cached"), "d": (["a"], None, "attr")}),
     "failing_factory_chain": dict(src='''
 FAIL = {"on": False, "skip": 0}
 def fac():
@@ -356,6 +389,10 @@ def ops_for(graph):
             ops += [["set", s, [2, 3]], ["with", s, [4], True], ["with", s, [5], False], ["item", s, 7, True], ["item", s, 8, False],
                     ["reset_attr", s, True], ["del", s], ["set_bad", s, "bad"]]
             continue
+        if kind == "alias":
+            # a passthrough Alias of a source: writing through it is a write of the source
+            ops += [["set", s, 1], ["set", s, 2], ["with", s, 3, True], ["with", s, 4, False], ["update", s, 6, True], ["update", s, 6, False]]
+            continue
         if kind == "prop_source":
             ops += [["set", s, 1], ["set", s, 2], ["set_fail", s, -1], ["with", s, 3, True], ["with", s, 4, False],
                     ["with_fail", s, -2, True], ["update_fail", s, -3, True], ["set_bad", s, "bad"]]
@@ -388,7 +425,7 @@ class Ref:
 
     def __init__(self, graph):
         self.g = GRAPHS[graph]
-        self.src = {k: copy.deepcopy(SRC_DEFAULT[k]) for k, kind in self.g["sources"].items() if kind != "int_nodefault"}
+        self.src = {k: copy.deepcopy(SRC_DEFAULT[k]) for k, kind in self.g["sources"].items() if kind not in ("int_nodefault", "alias")}
         self.src.update(self.g.get("init_src", {}))
         self.override = {}
         self.attr_val = {d: self.g.get("attr_default", 0) for d, (_, _, k) in self.g["derived"].items() if k == "attr"}
@@ -421,6 +458,7 @@ class Ref:
             pass
 
     def set_src(self, s, v):
+        s = self.g.get("alias", {}).get(s, s)
         self.src[s] = v
         self.changed(s)
 
@@ -559,7 +597,7 @@ def apply(ns, obj, ref, op):
             carrier = obj.reset(_inplace=op[1])
             # reset deletes every MANAGED attribute that currently has something to delete
             for k, kind in g["sources"].items():
-                if kind in ("unmanaged", "prop_source"):
+                if kind in ("unmanaged", "prop_source", "alias"):
                     continue  # (a property-backed attribute without deleter cannot be deleted: reset leaves it)
                 r2.del_src(k)
             for d in r2.attr_val:
